@@ -44,7 +44,7 @@ package bal_slb
 //@   nopanic
 //@   requires brr != nil
 //@   modifies nothing
-//@   ensures result0 == len(brr.backends)
+//@   ensures result0 == len(brr.backends) && result0 >= 0
 
 //@ func randomBalance
 //@   props C03
@@ -91,3 +91,41 @@ package bal_slb
 //@   loop 2 invariant[best_is_least_loaded] forall k int :: 0 <= k && k < N && eligible(backs[k]) ==> lcle(best, backs[k])
 //@   loop 2 invariant[candidates_tie_with_best] forall i int :: 0 <= i && i < len(candidates) ==> lcle(candidates[i], best) && lcle(best, candidates[i])
 //@   loop 2 invariant[best_is_eligible_member] best != nil && (exists m int :: 0 <= m && m < N && best == backs[m] && eligible(backs[m]))
+
+// ---- C02: session-sticky selection splits the hash space in proportion to the weights ----
+
+// total weight of the eligible backends among the first n
+//@ spec wsum(backs BackendList, n int) int := n <= 0 ? 0 : wsum(backs, n-1) + (eligible(backs[n-1]) ? backs[n-1].weight : 0)
+
+//@ func (*BalanceRR).ensureSortedUnlocked
+//@   props C02
+//@   requires brr != nil
+//@   trusted sort.Sort over the backend list is not modelled: the list is assumed to stay a well-formed, bounded list (a permutation of itself); the order it produces (by address) is what makes the choice independent of configuration order
+//@   modifies brr.backends[..], brr.sorted
+//@   ensures wfList(brr.backends) && bounded(brr.backends) && len(brr.backends) == old(len(brr.backends))
+
+//@ func (*BalanceRR).stickyBalance
+//@   props C02
+//@   nopanic
+//@   requires brr != nil && wfList(brr.backends) && bounded(brr.backends)
+//@   modifies brr.backends[..], brr.sorted
+//@   let backs := brr.backends
+//@   let N := len(brr.backends)
+//@   ensures[error_only_if_no_eligible_backend] result1 != nil ==> (forall k int :: 0 <= k && k < N ==> !eligible(backs[k]))
+//@   ensures[error_if_no_eligible_backend] (forall k int :: 0 <= k && k < N ==> !eligible(backs[k])) ==> result1 != nil
+//@   ensures[each_backend_owns_a_hash_interval_as_long_as_its_weight] result1 == nil && key != nil ==> (exists m int :: 0 <= m && m < N && eligible(backs[m]) && result0 == backs[m].backend && wsum(backs, m) <= int(keyHash(key) % uint64(wsum(backs, N))) && int(keyHash(key) % uint64(wsum(backs, N))) < wsum(backs, m) + backs[m].weight)
+//@   let c := rangeindex + 1
+//@   let L := len(candidates)
+//@   loop 1 invariant[count] 0 <= c && c <= N && L <= c && N == len(brr.backends) && wfList(brr.backends) && bounded(brr.backends)
+//@   loop 1 invariant[candidates_live_in_an_array_of_their_own] !allocated(base(candidates)) && off(candidates) == 0 && cap(candidates) == N && base(candidates) != base(brr.backends) && base(candidates) != nil
+//@   loop 1 invariant[total_is_eligible_weight_so_far] totalWeight == wsum(backs, c) && 0 <= totalWeight && totalWeight <= c * 1099511627776 && (L == 0 ==> totalWeight == 0) && (L > 0 ==> totalWeight >= 1)
+//@   loop 1 invariant[none_means_none_eligible] L == 0 ==> (forall k int :: 0 <= k && k < c ==> !eligible(backs[k]))
+//@   loop 1 invariant[each_candidate_is_eligible] forall i int :: 0 <= i && i < L ==> candidates[i] != nil && candidates[i].backend != nil && eligible(candidates[i])
+//@   loop 1 invariant[each_candidate_is_a_backend_seen_so_far] forall i int :: 0 <= i && i < L ==> (exists m int :: 0 <= m && m < c && candidates[i] == backs[m])
+//@   loop 1 invariant[first_candidate_starts_at_zero] forall m int :: 0 <= m && m < c && L > 0 && candidates[0] == backs[m] ==> wsum(backs, m) == 0
+//@   loop 1 invariant[each_candidate_starts_where_the_previous_one_ends] forall i int :: forall m int :: forall p int :: 0 < i && i < L && 0 <= m && m < c && 0 <= p && p < c && candidates[i] == backs[m] && candidates[i-1] == backs[p] ==> wsum(backs, m) == wsum(backs, p) + backs[p].weight
+//@   loop 1 invariant[last_candidate_ends_at_the_total] forall m int :: 0 <= m && m < c && L > 0 && candidates[L-1] == backs[m] ==> wsum(backs, m) + backs[m].weight == totalWeight
+//@   let h := int(keyHash(key) % uint64(totalWeight))
+//@   loop 2 invariant[value_is_hash_minus_the_intervals_passed] key != nil ==> (rangeindex == -1 ==> value == h) && (forall m int :: 0 <= m && m < N && rangeindex >= 0 && candidates[rangeindex] == backs[m] ==> value == h - wsum(backs, m) - backs[m].weight)
+//@   loop 2 invariant[value_below_the_weight_not_yet_passed] (rangeindex == -1 ==> value < totalWeight) && (forall m int :: 0 <= m && m < N && rangeindex >= 0 && candidates[rangeindex] == backs[m] ==> value < totalWeight - wsum(backs, m) - backs[m].weight)
+//@   loop 2 invariant[not_yet_found] 0 <= value && -1 <= rangeindex && rangeindex < len(candidates)
